@@ -428,6 +428,25 @@ def concrete_violation(name):
         return True, f'{name}: two equal models with the same seed give different samples: {a1.ravel()[:3]} vs {b1.ravel()[:3]}'
     if np.allclose(a1, a2):
         return True, f'{name}: successive calls do not advance the stream'
+    # without a seed: driven by, and reproducible through, the global NumPy state
+    try:
+        u = mk()
+        np.random.seed(99)
+        st0 = np.random.get_state()
+        s1 = np.asarray(u.sample(3, **kw), dtype=float)
+        st1 = np.random.get_state()
+        s2 = np.asarray(u.sample(3, **kw), dtype=float)
+        np.random.seed(99)
+        t1 = np.asarray(u.sample(3, **kw), dtype=float)
+        t2 = np.asarray(u.sample(3, **kw), dtype=float)
+    except Exception as e:
+        return True, f'{name}: unseeded sampling raises {type(e).__name__}: {e}'
+    if np.array_equal(st0[1], st1[1]) and st0[2] == st1[2]:
+        return True, f'{name}: sampling from an unseeded model does not advance the global NumPy random state'
+    if not (np.allclose(s1, t1, equal_nan=True) and np.allclose(s2, t2, equal_nan=True)):
+        return True, f'{name}: an unseeded model is not reproducible through np.random.seed: {s2.ravel()[:2]} vs {t2.ravel()[:2]} on the second call'
+    if np.allclose(s1, s2):
+        return True, f'{name}: successive unseeded calls repeat the same draws'
     return False, ''
 
 
